@@ -165,6 +165,16 @@ CHECKS = {
             'Trusted: recorder in drivers/c16.py. saturation_capacity = 0 (read as none by the API) and results outside the requested '
             'dtype range are outside the domain.',
             'trace validation by TLC against exact detector arithmetic in TLA+'),
+    'C17': ('model_checking',
+            'Rescale.tla states the bookkeeping (ceil(n s) samples, pixel scale / s, segment count) over exact rationals; TLC checks the '
+            'extent lemma for every n <= 64 [200] and every scale factor of the set, identity at s = 1 and composition, enumerates 720 '
+            '(shape, pixel scale, segments, factor) cases and emits the expected attributes; lentil\'s rescale and resample (same factor as a '
+            'target pixel scale) are compared: array shapes, pixel scale, binary mask, segment count and order, untouched original, identity, '
+            'refusals.',
+            'DESIGN.md 5 C17',
+            'The clauses "to interpolation accuracy" (transmitted power, propagated image) are NOT decided by the model: numeric leaf on '
+            'Gaussian apertures (2e-2 / 3e-2). n*s integer with a non-dyadic factor is a ceil tie.',
+            'bookkeeping arithmetic model-checked by TLC; TLC-enumerated cases replayed into lentil'),
     'C20': ('model_checking',
             'Geometry.tla defines pad/crop (2-D and cubes), sub-array, bounding box, bounding slice with pad and clipping, slice '
             'offset, rebin, centroid (exact rational), mesh, the half-turn / mirror / translation index maps of drawn shapes and '
